@@ -1,6 +1,7 @@
 package main
 
 import (
+	"go/types"
 	"fmt"
 	"os"
 	"path/filepath"
@@ -60,7 +61,8 @@ type Binder struct {
 
 // TypeExpr is a parsed type: ptr, named, map, slice, set, basic
 type TypeExpr struct {
-	Kind string // "name", "ptr", "map", "slice", "set", "seq"
+	Go   types.Type // Kind "resolved": a Go type taken from a signature (directive `functional`)
+	Kind string // "name", "ptr", "map", "slice", "set", "seq", "resolved"
 	Pkg  string
 	Name string
 	Key  *TypeExpr
@@ -148,6 +150,7 @@ type LoopSpec struct {
 }
 
 type FuncSpec struct {
+	Functional string // name of the specification function that stands for the result (directive `functional`)
 	Hints    map[string]map[string]bool // obligation suffix -> labels of the quantified hypotheses it may use
 	Key      string // function identifier as written
 	Extern   bool
@@ -605,7 +608,7 @@ func parseExprString(src string) (e Expr, err error) {
 
 var declKeywords = map[string]bool{"hide": true, "before": true, "at": true, "sortspec": true, "after": true, "assert": true, "opaque": true, "reveal": true, "import": true, "ghost": true, "fun": true, "pred": true, "ufun": true,
 	"axiom": true, "func": true, "extern": true, "lemma": true, "requires": true, "ensures": true,
-	"modifies": true, "loop": true, "hint": true, "invariant": true, "pure": true, "free": true, "trusted": true, "mutates": true,
+	"modifies": true, "loop": true, "hint": true, "functional": true, "invariant": true, "pure": true, "free": true, "trusted": true, "mutates": true,
 	"package": true}
 
 // logical lines: a line starting with a keyword begins a new item; other lines continue the previous.
@@ -921,6 +924,17 @@ func (db *SpecDB) LoadSpecFile(path string, pkgPath string) error {
 				} else {
 					return fail(ll, "reveal outside func/lemma")
 				}
+			}
+		case "functional":
+			// functional <name>: the (single) result of this function is a function of its arguments - justified by a
+			// syntactic check of the body (value-typed parameters, no heap access, no calls); <name> becomes a
+			// specification function standing for the result, and callers learn  res == <name>(args)
+			if cur == nil {
+				return fail(ll, "functional outside func")
+			}
+			cur.Functional = strings.TrimSpace(rest)
+			if cur.Functional == "" {
+				return fail(ll, "functional <name>")
 			}
 		case "pure":
 			if cur == nil {
